@@ -23,7 +23,7 @@ Print Assumptions T_C17_visit_args.
    requested twice is visited twice *)
 Theorem T_C17_fields : forall a pl key t vs rest path (v : fsval (FCons key t vs rest)) ms l0,
   load_fields a pl rec_sink (FCons key t vs rest) path v ms l0 =
-  ('(v1, ld, l1) <- match member (DKStr key) ms with
+  ('(v1, ld, l1) <- match member (field_key t key) ms with
                    | None => Ok (fst v, false, l0)
                    | Some d => load_fty a pl rec_sink t (path ++ slash ++ key)%list (fst v) d l0
                    end ;;
@@ -234,3 +234,47 @@ Example T_C17_xml_cap_counts_paths :
              /\ List.length m = 2%nat).
 Proof. exact xml_cap_counts_paths. Qed.
 Print Assumptions T_C17_xml_cap_counts_paths.
+
+(* ------------------------------------------------------------------------------------------------------------ *)
+(* XML attributes: a member serialized with AttributeValue (leaf types LAttrInt / LAttrStr) is looked up among the
+   ATTRIBUTES of the element (document members keyed '@name'); T_C17_fields above says where: member (field_key t key).
+   Its path is path/key like a child element's, because GetPath() of the attribute scope is the element's path. *)
+Theorem T_C17_xml_attribute_lookup : forall key,
+  field_key (FLeaf LAttrInt) key = attr_key key /\ field_key (FLeaf LAttrStr) key = attr_key key /\
+  field_key (FLeaf LInt) key = DKStr key /\ field_key (FLeaf LStr) key = DKStr key.
+Proof. exact attribute_lookup. Qed.
+Print Assumptions T_C17_xml_attribute_lookup.
+
+(* attributes are not children: no array items, no VisitKeys keys, not counted by GetEstimatedSize *)
+Theorem T_C17_xml_attributes_are_not_children :
+  (forall k d l, is_attr_key k = true -> elem_members xml_arch ((k, d) :: l) = elem_members xml_arch l) /\
+  (forall pl l, open_array xml_arch pl (DMap l)
+                = Ok (Some (List.length (elem_members xml_arch l), List.map snd (elem_members xml_arch l)))).
+Proof. exact (conj attributes_are_not_children xml_array_scope_of_object). Qed.
+Print Assumptions T_C17_xml_attributes_are_not_children.
+
+(* the value of an attribute is text converted with the policies (since /repo eaa6abb); unlike an empty element
+   ("not loaded"), an empty attribute is not a number (mismatch policy) and IS a string *)
+Theorem T_C17_xml_attribute_values : forall pl (p : Z) (q : str) z,
+  load_leaf xml_arch pl LAttrInt p (DInt z) = (if in_int32 z then Ok (z, true) else on_overflow pl (p, false)) /\
+  load_leaf xml_arch pl LAttrInt p (DBool true) = on_mismatch pl (p, false) /\
+  load_leaf xml_arch pl LAttrInt p (DStr []) = on_mismatch pl (p, false) /\
+  load_leaf xml_arch pl LInt p (DStr []) = Ok (p, false) /\
+  load_leaf xml_arch pl LAttrStr q (DStr []) = Ok ([], true) /\
+  load_leaf xml_arch pl LStr q (DStr []) = Ok (q, false).
+Proof.
+  intros. destruct (attribute_number_policies pl p z) as [H1 H2].
+  destruct (attribute_empty_text pl p q) as [H3 [H4 [H5 H6]]].
+  split; [exact H1|]. split; [exact H2|]. split; [exact H3|]. split; [exact H4|]. split; [exact H5|exact H6].
+Qed.
+Print Assumptions T_C17_xml_attribute_values.
+
+(* an attribute and a child element of the same name share their path: class Attr = { @id, @name, x, @x } from
+   <object id="3" name="ab" x="12"/>: the missing element x and the out-of-range attribute x are both under /object/x *)
+Example T_C17_xml_attribute_shares_path :
+  load_root xml_arch default_pols 0 (FObj ArchCodec.fields_attr) attr_doc
+  = Exc (EValidation [([47; 111; 98; 106; 101; 99; 116; 47; 120]%N,
+                       [[84; 104; 105; 115; 32; 102; 105; 101; 108; 100; 32; 105; 115; 32; 114; 101; 113; 117; 105; 114; 101; 100]%N;
+                        [97; 116; 116; 114; 32; 120]%N])]).
+Proof. exact attribute_shares_path_with_element. Qed.
+Print Assumptions T_C17_xml_attribute_shares_path.
